@@ -56,4 +56,13 @@ structure Tx where
 def SortTx (tx : Tx) : Tx := ⟨sortBy lessIn tx.ins, sortBy lessOut tx.outs⟩
 def IsSorted (tx : Tx) : Bool := isSortedBy lessIn tx.ins && isSortedBy lessOut tx.outs
 
+/-! `Sort` works on a deep copy and returns it; `InPlaceSort` sorts the transaction it is given. With the caller's
+transaction as the state: -/
+
+/-- `Sort(tx)`: the caller's transaction stays what it was, the sorted copy is returned -/
+def sortCopy (caller : Tx) : Tx × Tx := (caller, SortTx caller)
+
+/-- `InPlaceSort(tx)`: the caller's transaction becomes the sorted one -/
+def InPlaceSort (caller : Tx) : Tx := SortTx caller
+
 end Bch.Model.TxSort
